@@ -326,7 +326,7 @@ def run(ctx):
     ctx.prepare()
     ctx.lean(["Crng.Props.C20"], ["Crng.Props.C20.dest_option_sets_its_field", "Crng.Props.C20.dest_defaults", "Crng.Props.C20.dest_options_commute",
                                   "Crng.Props.C20.route_option_sets_its_field", "Crng.Props.C20.expand_only_documented", "Crng.Props.C20.expand_group_refs"],
-             ties=["Crng.Tie.C20", common.CODE_READDEST, common.CODE_CFG, common.CODE_READAGG])
+             ties=["Crng.Tie.C20", common.CODE_READDEST, common.CODE_CFG, common.CODE_READAGG, common.CODE_AGREE])
     ddef, gdef = doc_defaults()
     cases, meta = build(ctx.rng("c20"), ctx.scale(250, 5000))
     real, model = ctx.stream("cmd-vs-toml", "cfg", cases, spec_exact=True, shrink=False, timeout=ctx.scale(300, 3000),
